@@ -8,6 +8,8 @@ import (
 	"github.com/vektah/gqlparser/v2/gqlerror"
 )
 
+import "github.com/vektah/gqlparser/v2/verifhook"
+
 // Lexer turns graphql request and schema strings into tokens
 type Lexer struct {
 	*ast.Source
@@ -75,9 +77,11 @@ func (s *Lexer) makeError(format string, args ...interface{}) (Token, *gqlerror.
 // token, then lexes punctuators immediately or calls the appropriate helper
 // function for more complicated tokens.
 func (s *Lexer) ReadToken() (Token, error) {
+	verifhook.Step(verifhook.SiteLexRead)
 	s.ws()
 	s.start = s.end
 	s.startRunes = s.endRunes
+	verifhook.Gauge(verifhook.SiteLexRead, s.end)
 
 	if s.end >= len(s.Input) {
 		return s.makeToken(EOF)
